@@ -47,6 +47,27 @@ def group_script(eng, core_hyps, obls):
 def gen_function(classes, contracts, name, extra=None):
     """returns dict(name, sha, groups=[dict(prelude, checks=[(oname, kind, info, pvar)])],
     obligations=[(oname, kind, None|'g', info)], error, assumptions)"""
+    # the executor is written in continuation-passing style: deep but finite python recursion; run it in a
+    # thread with a large stack
+    import threading
+    box = {}
+
+    def work():
+        box['r'] = _gen_function(classes, contracts, name, extra)
+    old = sys.getrecursionlimit()
+    sys.setrecursionlimit(200000)
+    threading.stack_size(512 * 1024 * 1024)
+    t = threading.Thread(target=work)
+    t.start()
+    t.join()
+    sys.setrecursionlimit(old)
+    threading.stack_size(0)
+    if 'r' not in box:
+        return dict(name=name, sha=None, obligations=[], groups=[], error='CRASH: generator thread died', assumptions=[], paths=0)
+    return box['r']
+
+
+def _gen_function(classes, contracts, name, extra=None):
     eng = make_engine(classes, contracts, extra)
     c = contracts[name]
     out = dict(name=name, sha=None, obligations=[], groups=[], error=None, assumptions=[], paths=0)
